@@ -90,7 +90,7 @@ CHECKS = {
         parts=[
             dict(pkg="./pkg/rdb/digest", harness=["digest"], test="^TestVerif_C11A$", shards=1, budget=dict(quick=60, thorough=120)),
             dict(pkg="./pkg/libs/cupcake/rdb/crc64", harness=["crc64"], test="^TestVerif_C11A$", shards=1, budget=dict(quick=60, thorough=120)),
-            dict(pkg="./pkg/rdb", harness=["rdb"], test="^TestVerif_C11B$", shards=32, shards_thorough=256, budget=dict(quick=60, thorough=900), mem_kb=0),
+            dict(pkg="./pkg/rdb", harness=["rdb"], test="^TestVerif_C11B$", shards=32, shards_thorough=256, budget=dict(quick=60, thorough=900), mem_kb=0, mem_soft_kb=0),
             dict(pkg="./redis-shake/common", harness=["common"], test="^TestVerif_C11U$", shards=16, budget=dict(quick=90, thorough=600)),
         ],
     ),
